@@ -295,7 +295,9 @@ def floor(ctx):
     from harness import encfloor
     lead = ['=CC', '#CC(C)C1CC1', '/C=C/C', '-CC', 'C=1CC=1C', 'C-1CC-1', 'C=%11CC=%11C', '=C1CC1', 'C/1=C/CCCCCC1', '\\C=C/C',
             'C(=O)(-C)C', 'C.=CC', 'CC(.C)C=O', 'C-C-C', 'C1=CC=1.C=1CC=1']
-    jobs += [('enc', None, ch) for ch in chunks(lead + encfloor.SPECIAL + cor[:: (6 if ctx.tier == 'quick' else 1)], 8)]
+    from harness import smifuzz
+    fz = smifuzz.strings(ctx.seed + 3, 800 if ctx.tier == 'quick' else 10000)
+    jobs += [('enc', None, ch) for ch in chunks(lead + encfloor.SPECIAL + fz + cor[:: (6 if ctx.tier == 'quick' else 1)], 8)]
     res = pmap(_work, jobs)
     viol = [b for r in res for b in r[2]]
     return {'evaluations': sum(r[0] for r in res), 'distinct_nontrivial': sum(r[1] for r in res),
